@@ -11,7 +11,7 @@
 (* checked for small constants and bound to the code by trace validation   *)
 (* (HeurTrace.tla): random operation histories on the real containers.     *)
 (***************************************************************************)
-EXTENDS Integers, Sequences, FiniteSets
+EXTENDS Integers, Sequences, FiniteSets, HeurFn
 
 CONSTANTS Moves,      \* identities of moves (from, to, piece, type in the code)
           MaxPly,     \* plies with killer slots: 0 .. MaxPly - 1 (64 in the code)
@@ -33,18 +33,14 @@ HInit == /\ kill = [q \in 0..(MaxPly - 1) |-> <<>>]
          /\ steps = 0
 
 (* ---------------- killer moves: two slots per ply, most recent first, no duplicate of slot one *)
-KStore(m, ply) ==
-  /\ kill' = IF ply >= MaxPly THEN kill
-             ELSE IF kill[ply] # <<>> /\ kill[ply][1] = m THEN kill
-             ELSE [kill EXCEPT ![ply] = IF kill[ply] = <<>> THEN <<m>> ELSE <<m, kill[ply][1]>>]
-  /\ UNCHANGED <<hist, rep>>
-IsKiller(k, m, ply) == ply < MaxPly /\ \E j \in 1..Len(k[ply]) : k[ply][j] = m
+KStore(m, ply) == /\ kill' = KStoreF(kill, m, ply, MaxPly)
+                  /\ UNCHANGED <<hist, rep>>
+IsKiller(k, m, ply) == IsKillerF(k, m, ply, MaxPly)
 
 (* ---------------- history heuristic: depth squared per cut-off, saturating; halved by every search *)
-SatAdd(x, inc) == IF x > Cap - inc THEN Cap ELSE x + inc      \* (written so that no intermediate value exceeds Cap)
-HRecord(m, d) == /\ hist' = [hist EXCEPT ![m] = SatAdd(hist[m], d * d)]
+HRecord(m, d) == /\ hist' = [hist EXCEPT ![m] = SatAddF(hist[m], d * d, Cap)]
                  /\ UNCHANGED <<kill, rep>>
-HAge == /\ hist' = [m \in Moves |-> hist[m] \div 2]
+HAge == /\ hist' = AgeF(hist)
         /\ UNCHANGED <<kill, rep>>
 
 (* ---------------- repetition stack *)
